@@ -25,6 +25,7 @@ type ProcSpec struct {
 	ShutdownTimeout int    `json:"shutdownTimeout"`
 	Signal          int    `json:"signal"`
 	BadWorkdir      bool   `json:"badWorkdir"`
+	ShutdownCmd     bool   `json:"shutdownCmd"` // shutdown.command configured (a real, trivial shell command)
 }
 
 type Edge struct {
